@@ -55,15 +55,14 @@ def slots(prog, run):
     """applymask returns its list filtered element by element: the k-th returned table must be bound to the variable that was passed at
     position k - otherwise two tables (say the frequency and the damping covariances) silently change places"""
     n = 0
-    for ci in prog.classes.values():
-        if not ci.mod.startswith("pyoma2.algorithms"):
-            continue
-        m = ci.methods.get("run")
-        if m is None:
+    for m in list(prog.functions.values()):
+        if not m.mod.startswith("pyoma2.algorithms"):
             continue
         f = rel(prog.mods[m.mod].path)
         pm = astq.parent_map(m.node)
         for c, r in prog.calls_in(m):
+            if isinstance(r, FuncInfo) and r.node.name != "applymask" and r.mod == m.mod:
+                n += _helper_slots(prog, run, m, f, pm, c, r)
             if not (isinstance(r, FuncInfo) and r.node.name == "applymask"):
                 continue
             n += 1
@@ -107,12 +106,40 @@ def slots(prog, run):
         run.ob("R-slots", "pyoma2.algorithms", "applymask calls", None, "no applymask call found in the run methods")
 
 
+def _helper_slots(prog, run, m, f, pm, c, r):
+    """a helper of the algorithm module that takes pole tables and returns them as a tuple of its own parameters (the filtering
+    moved into a method): the caller must unpack position k into the variable it passed for the parameter returned at position k"""
+    rets = [x for x in ast.walk(r.node) if isinstance(x, ast.Return)]
+    if len(rets) != 1 or not isinstance(rets[0].value, ast.Tuple) or len(rets[0].value.elts) < 3:
+        return 0
+    params = astq.params_of(r.node)[0] + astq.params_of(r.node)[1]
+    rnames = [e.id if isinstance(e, ast.Name) else None for e in rets[0].value.elts]
+    if any(x is None or x not in params for x in rnames):
+        return 0
+    st = pm.get(c)
+    tgt = st.targets[0] if isinstance(st, ast.Assign) and len(st.targets) == 1 else None
+    if not isinstance(tgt, (ast.Tuple, ast.List)) or len(tgt.elts) != len(rnames):
+        return 0
+    bound = r.cls is not None and isinstance(c.func, ast.Attribute) and not getattr(r, "is_static", False)
+    b, errs = astq.bind_args(r.node, c, bound=bound)
+    passed = [astq.src(b[p_]) if isinstance(b.get(p_), ast.AST) else None for p_ in rnames]
+    got = [astq.src(e) for e in tgt.elts]
+    pairs = [(a_, t_) for a_, t_ in zip(passed, got) if a_ is not None and a_.isidentifier() and t_.isidentifier()]
+    if len(pairs) < 3:
+        return 0
+    ok = all(a_ == t_ for a_, t_ in pairs)
+    run.ob("R-slots", m.qual, f"tables handed to {r.node.name} return to their variables", ok,
+           f"passed {passed} for the returned parameters {rnames}, bound back to {got}" + ("" if ok else " - tables change places"),
+           witness=f"{passed}->{got}", file=f, node=c, config=f"helper:{r.node.name}")
+    return 1
+
+
 def check(prog, run):
     run.rule("R-reach", "every criterion of the run-parameter defaults reaches every pole table of the result (criteria enabled, all configurations)", 60)
     run.rule("R-same-pattern", "all pole tables of one result carry the same set of criteria (one NaN pattern)", 7)
     run.rule("R-bind", "hc['xi_max'] -> HC_damp.max_damp, hc['mpc_lim'] / hc['mpd_lim'] -> HC_phi_comp parameters of those names, hc['cov_max'] -> HC_cov.max_cov", 15)
     run.rule("R-sense", "keep-conditions: 0 < xi < xi_max, MPC >= mpc_lim, MPD <= mpd_lim, cov < cov_max; applymask keeps values where the mask is true, NaN elsewhere", 6)
-    run.rule("R-slots", "every applymask call gets its filtered tables back into the variables they came from, position by position (values of the retained poles unchanged)", 12)
+    run.rule("R-slots", "every applymask call gets its filtered tables back into the variables they came from, position by position (values of the retained poles unchanged)", 4)
     slots(prog, run)
     run.assume("dependence (taint) analysis: a criterion 'reaches' a table if the table's value depends on a mask computed from that criterion's value; "
                "it is a necessary condition for the criterion to take effect, not a proof that the right poles are removed")
